@@ -397,6 +397,22 @@ func rsErrorSweep(f *reedsolomon.GenericGF, k, r, size int) string {
 	return fmt.Sprint("restored ", good, " not restored ", bad)
 }
 
+// flipModules inverts the pixels of the given modules (x, y) of a symbol rendered with the given
+// scale and quiet zone (in modules).
+func flipModules(g *image.Gray, scale, quiet int, mods [][2]int) *image.Gray {
+	for _, m := range mods {
+		for dy := 0; dy < scale; dy++ {
+			for dx := 0; dx < scale; dx++ {
+				x, y := (m[0]+quiet)*scale+dx, (m[1]+quiet)*scale+dy
+				if x < g.Rect.Dx() && y < g.Rect.Dy() {
+					g.Pix[y*g.Stride+x] ^= 0xff
+				}
+			}
+		}
+	}
+	return g
+}
+
 func imax(a, b int) int {
 	if a > b {
 		return a
@@ -485,6 +501,8 @@ var needs = map[string][]string{
 	"qr-r-hint-iana-latin1": {"qr-loc"}, "qr-r-hint-iana-koi8": {"qr-loc"},
 	"fail-qr-damaged": {"qr-pure"}, "fail-dm-damaged": {"dm-pure"}, "fail-1d-wrong-check": {"ean13"}, "fail-charset-hints": {"qr-pure"},
 	"rows-upcean": {"ean13", "ean8", "upca", "upce"}, "rows-other": {"code39", "code93", "code128", "itf", "codabar"}, "rss14-r-reset": {"rss14"},
+	"qr-r-repaired-a": {"qr-pure"}, "qr-r-repaired-b": {"qr-pure"}, "dm-r-repaired-a": {"dm-pure"}, "dm-r-repaired-b": {"dm-pure"},
+	"aztec-r-repaired-compact-a": {"aztec-c"}, "aztec-r-repaired-compact-b": {"aztec-c"}, "aztec-r-repaired-full-a": {"aztec-f"}, "aztec-r-repaired-full-b": {"aztec-f"},
 	"code93-r": {"code93"}, "code128-r": {"code128"}, "itf-r": {"itf"}, "codabar-r": {"codabar"}, "rss14-r": {"rss14"},
 }
 
@@ -839,6 +857,32 @@ func all() []opLit {
 				g.Pix[i] = byte(255 * ((i*7 + i/90*13 + (i*i)/5) % 3 / 2))
 			}
 			return read(qrcode.NewQRCodeReader(), g, hard) + ";" + read(datamatrix.NewDataMatrixReader(), g, nil) + ";" + read(aztec.NewAztecReader(), g, nil)
+		}},
+		// damaged but CORRECTABLE symbols (two variants with different error patterns each): the
+		// error-correcting path of the readers, which clean symbols leave at the first syndrome test
+		{"qr-r-repaired-a", func() string {
+			return read(qrcode.NewQRCodeReader(), flipModules(img("qr-pure"), 1, 0, [][2]int{{12, 12}, {13, 12}}), pure)
+		}},
+		{"qr-r-repaired-b", func() string {
+			return read(qrcode.NewQRCodeReader(), flipModules(img("qr-pure"), 1, 0, [][2]int{{20, 20}, {9, 18}, {15, 10}}), pure)
+		}},
+		{"dm-r-repaired-a", func() string {
+			return read(datamatrix.NewDataMatrixReader(), flipModules(img("dm-pure"), 1, 0, [][2]int{{3, 3}, {4, 3}}), pure)
+		}},
+		{"dm-r-repaired-b", func() string {
+			return read(datamatrix.NewDataMatrixReader(), flipModules(img("dm-pure"), 1, 0, [][2]int{{9, 6}, {5, 11}, {12, 12}}), pure)
+		}},
+		{"aztec-r-repaired-compact-a", func() string {
+			return read(aztec.NewAztecReader(), flipModules(img("aztec-c"), 4, 3, [][2]int{{0, 3}, {1, 3}}), nil)
+		}},
+		{"aztec-r-repaired-compact-b", func() string {
+			return read(aztec.NewAztecReader(), flipModules(img("aztec-c"), 4, 3, [][2]int{{3, 0}, {4, 1}, {0, 8}}), nil)
+		}},
+		{"aztec-r-repaired-full-a", func() string {
+			return read(aztec.NewAztecReader(), flipModules(img("aztec-f"), 3, 3, [][2]int{{2, 10}, {2, 11}, {3, 20}}), nil)
+		}},
+		{"aztec-r-repaired-full-b", func() string {
+			return read(aztec.NewAztecReader(), flipModules(img("aztec-f"), 3, 3, [][2]int{{14, 2}, {15, 2}, {30, 1}, {1, 30}}), nil)
 		}},
 		{"fail-qr-damaged", func() string {
 			g := img("qr-pure")
